@@ -199,6 +199,12 @@ def worker(sh):
             h1 += [x, x | (rng.getrandbits(3) << 381)]
             if x + Q <= M381:
                 h1.append(x + Q)
+    # hashes whose point has its y at the boundary of the sort rule that picks the root (Montgomery form of y within a small distance of
+    # (q-1)/2 on either side): x is a cube root of y^2 - 4
+    if sh.index < 8:
+        import c09
+        for P, d in c09.boundary_y_points(rng, 6):
+            h1.append(P[0] | (rng.getrandbits(3) << 381))
     for h in h1:
         hb = h.to_bytes(48, 'big').hex()
         add('c.g1affine_from_hash %s' % hb, 'h1', h)
@@ -339,6 +345,13 @@ def worker(sh):
                     fail('from_hash result is not a curve point', 'hash:%s:off-curve' % op)
                 elif P[0] != x:
                     fail('abscissa is not the first x >= hashed value with x^3+4 a square (expected +%d)' % n, 'hash:%s:not-first-x' % op)
+                elif O.sort_greater(1, P[1]):
+                    # the function has always returned the root its sort rule calls smaller; identities derived from it are stored and exchanged
+                    fail('ordinate is the greater of the two roots (sort rule: order of the Montgomery forms)', 'hash:%s:root-choice' % op)
+                else:
+                    ym = P[1] * O.RQ % Q
+                    if min(abs(ym - (Q - 1) // 2), abs(ym - (Q + 1) // 2)) < (1 << 65):
+                        cls += '/y-at-sort-boundary'
                 sh.event(op, cls)
                 if sh.index == 0:
                     sh.sample({'op': op, 'hash': hex(h), 'increments': n, 'x': hex(x)}, limit=3)
@@ -356,6 +369,8 @@ def worker(sh):
                     fail('derived identity point is not in G1', 'hash:%s:not-in-subgroup' % op)
                 if not (O.E1.eq(P, e) or O.E1.eq(P, O.E1.neg(e))):
                     fail('identity point is not cofactor * try-and-increment point', 'hash:%s:not-cofactor-multiple' % op)
+                elif e is not None and not O.E1.eq(P, e if not O.sort_greater(1, y) else O.E1.neg(e)):
+                    fail('identity point is the cofactor multiple of the GREATER root (sort rule: order of the Montgomery forms)', 'hash:%s:root-choice' % op)
                 sh.event(op, cls)
             elif kind == 'h2':
                 f0, f1 = m[1], m[2]
@@ -370,6 +385,8 @@ def worker(sh):
                     fail('from_hash result is not a curve point', 'hash:%s:off-curve' % op)
                 elif P[0] != x:
                     fail('abscissa is not the first x (stepping c0) with x^3+b a square (expected +%d)' % n, 'hash:%s:not-first-x' % op)
+                elif O.sort_greater(2, P[1]):
+                    fail('ordinate is the greater of the two roots (sort rule: order of the Montgomery forms, u-coefficient first)', 'hash:%s:root-choice' % op)
                 sh.event(op, cls)
             elif kind == 'grand':
                 which, s = m[1], m[2]
